@@ -1,6 +1,7 @@
 package main
 
 import (
+	"sync/atomic"
 	"context"
 	"regexp"
 	"runtime"
@@ -38,6 +39,7 @@ type Options struct {
 	Verif    string
 	PerQuery time.Duration
 	Thorough bool
+	Light    bool // thorough tier with small budgets (set for properties with more than 100 functions)
 	Seed     int
 	Verbose  bool
 	KeepSMT  string
@@ -418,6 +420,11 @@ const (
 	wallPortfolio   = 120 * time.Second
 )
 
+// number of obligations of this run that the first attempt left open
+var openInRun int64
+
+const maxOpenInRun = 48
+
 func runSolverLimited(solver, file string, timeout time.Duration) solverResult {
 	return runSolverLimitedCtx(context.Background(), solver, file, timeout)
 }
@@ -522,7 +529,10 @@ func (e *Engine) discharge(res *FuncResult, t *tr, body string, opt *Options) {
 					// crypto axioms needed about 25 s of z3 in the context of Decrypt, and was invisible at 3 s)
 					hs, wall := solver, 4*time.Second
 					if opt.Thorough {
-						wall = wallRetry
+						wall = 60 * time.Second
+						if opt.Light {
+							wall = 10 * time.Second
+						}
 						if solver == "z3-new" {
 							hs = "z3-new-retry"
 						}
@@ -541,7 +551,7 @@ func (e *Engine) discharge(res *FuncResult, t *tr, body string, opt *Options) {
 		}
 	}
 	query := func(o *Obligation) string {
-		return fmt.Sprintf("(assert (and %s (not %s)))\n(check-sat)\n", o.Guard, o.Goal)
+		return fmt.Sprintf("(assert (and %s (not %s)))\n(check-sat)\n(get-info :reason-unknown)\n", o.Guard, o.Goal)
 	}
 	var runCtx func(ctx context.Context, k int, solver string, limit time.Duration) (string, int64, []string)
 	run := func(k int, solver string, limit time.Duration) (string, int64, []string) {
@@ -562,6 +572,14 @@ func (e *Engine) discharge(res *FuncResult, t *tr, body string, opt *Options) {
 		st := "unknown"
 		if len(r.lines) > 0 {
 			st = r.lines[0]
+		}
+		if st == "unknown" && len(r.lines) > 1 && strings.Contains(r.lines[1], "incomplete") {
+			// z3 finished instantiating without finding a contradiction (as opposed to running out of its budget): another
+			// seed or a larger budget saturates the same way
+			st = "unknown(saturated)"
+		}
+		if st == "unsat" || st == "sat" {
+			r.errors = nil // (get-info :reason-unknown) after a definite answer is an error message, not a failure
 		}
 		if len(r.errors) > 0 {
 			st = "error"
@@ -599,7 +617,7 @@ func (e *Engine) discharge(res *FuncResult, t *tr, body string, opt *Options) {
 		go func(k int) {
 			defer wg.Done()
 			o := res.Obls[k]
-			if o.Kind == "frame" && !opt.Thorough {
+			if o.Kind == "frame" {
 				st, ms := runSliced(k)
 				vmu.Lock()
 				res.SolverMs += ms
@@ -633,6 +651,11 @@ func (e *Engine) discharge(res *FuncResult, t *tr, body string, opt *Options) {
 				nOpen++
 				over := nOpen > 12
 				vmu.Unlock()
+				// ... and a run in which dozens of obligations are open (a change that breaks a building block of many
+				// functions) is decided: more solvers on each of them only cost time
+				if atomic.AddInt64(&openInRun, 1) > maxOpenInRun {
+					over = true
+				}
 				if over {
 					return
 				}
@@ -641,8 +664,8 @@ func (e *Engine) discharge(res *FuncResult, t *tr, body string, opt *Options) {
 			var swg sync.WaitGroup
 			pctx, pcancel := context.WithCancel(context.Background())
 			for _, solver := range []string{"z3-new-p1", "z3-new-p2", "z3-new-p3", "z3", "cvc5"} {
-				if strings.HasPrefix(solver, "z3-new-p") && st == "unsat" {
-					continue // thorough cross-check: other solvers only
+				if strings.HasPrefix(solver, "z3-new-p") && (st == "unsat" || st == "unknown(saturated)") {
+					continue // thorough cross-check / saturated first attempt: other solvers only
 				}
 				swg.Add(1)
 				go func(solver string) {
@@ -656,6 +679,14 @@ func (e *Engine) discharge(res *FuncResult, t *tr, body string, opt *Options) {
 					lim := wallSecond
 					if strings.HasPrefix(solver, "z3-new-p") {
 						lim = wallPortfolio
+					} else if opt.Thorough && st == "unsat" {
+						lim = 20 * time.Second // cross-check of a discharged obligation
+						if opt.Light {
+							if solver == "cvc5" {
+								return
+							}
+							lim = 10 * time.Second
+						}
 					}
 					st2, ms2, _ := runCtx(pctx, k, solver, lim)
 					vmu.Lock()
@@ -680,7 +711,7 @@ func (e *Engine) discharge(res *FuncResult, t *tr, body string, opt *Options) {
 			}
 			swg.Wait()
 			pcancel()
-			if o.Status != "unsat" && o.Status != "error" && !opt.ExpectFail[res.Key+"#"+o.Name] {
+			if o.Status != "unsat" && o.Status != "error" && st != "unknown(saturated)" && !opt.ExpectFail[res.Key+"#"+o.Name] {
 				// last attempt with an eight times larger budget (a few obligations per function only)
 				vmu.Lock()
 				nRetry++
